@@ -39,6 +39,7 @@ func main() {
 	args := kv{}
 	fs.Var(args, "D", "extra key=value")
 	fs.Parse(os.Args[2:])
+	flag.CommandLine.Parse(nil) // VictoriaMetrics' memory package insists on a parsed default flag set
 	f := hx.Lookup(prop)
 	if f == nil {
 		fmt.Fprintln(os.Stderr, "unknown property", prop, "known:", hx.Props())
